@@ -70,6 +70,7 @@ PROPS = {
         "partial": ["thread interleavings; wait_blocking on parked threads"],
     },
     "C04": {
+        "atomics": True,
         "modules": ["ALock.Props.C04"],
         "prims": ["once"],
         "fields": ["out", "words", "val", "drops"],
@@ -88,6 +89,7 @@ PROPS = {
         "partial": ["thread interleavings; threads parked in blocking forms"],
     },
     "C02": {
+        "atomics": True,
         "modules": ["ALock.Props.C02"],
         "prims": ["rwlock"],
         "fields": ["out", "words"],
@@ -141,6 +143,7 @@ PROPS = {
         "partial": ["'dropped exactly once' is tied by the payload drop counter of the harness (Mutex, RwLock); the Semaphore has no payload"],
     },
     "C11": {
+        "atomics": True,
         "modules": ["ALock.Props.C11"],
         "prims": ["rwlock"],
         "fields": ["out", "words"],
@@ -150,6 +153,7 @@ PROPS = {
         "partial": ["interleavings of atomic operations"],
     },
     "C01": {
+        "atomics": True,
         "modules": ["ALock.Props.C01"],
         "prims": ["mutex"],
         "fields": ["out", "words"],
@@ -179,6 +183,7 @@ PROPS = {
         "partial": ["(b) FIFO among later arrivals: monitored on the implementation and searched; theorem C13_fifo pending"],
     },
     "C03": {
+        "atomics": True,
         "modules": ["ALock.Props.C03"],
         "prims": ["sem"],
         "fields": ["out", "words"],
